@@ -111,3 +111,40 @@ func TestValidOverwriteKeepsPreviousVersion(t *testing.T) {
 		t.Fatalf("want 2 versions, got %d", n)
 	}
 }
+
+// PUT /bucket/ (trailing slash) is routed to the bucket handler, which never reads the body; the request was nevertheless
+// classified as a streaming upload, so its signature was never verified: a wrong secret created a bucket.
+func TestWrongSecretBucketWithTrailingSlashRefused(t *testing.T) {
+	g := gwtest.Start(t, gwtest.Options{})
+	bad := gwtest.Cred{Access: g.RootC.Access, Secret: "not-the-secret"}
+	r := g.Put(bad, "/newbucket/", nil, nil)
+	h := g.Head(g.RootC, "/newbucket")
+	if r.Status/100 == 2 || h.Status == 200 {
+		t.Fatalf("PUT /newbucket/ signed with a wrong secret answered %d; HEAD /newbucket now answers %d", r.Status, h.Status)
+	}
+	if ok := g.Put(g.RootC, "/goodbucket/", nil, nil); ok.Status != 200 {
+		t.Fatalf("PUT /goodbucket/ with the right secret: %s", ok)
+	}
+}
+
+// An upload with x-amz-content-sha256: STREAMING-UNSIGNED-PAYLOAD-TRAILER carries no chunk signatures; the only check of
+// the secret is the deferred header signature, evaluated when the raw body stream reports its end — which the chunk
+// decoder never asked for once it had seen the trailer: a wrong secret stored an object.
+func TestWrongSecretUnsignedTrailerUploadRefused(t *testing.T) {
+	g := gwtest.Start(t, gwtest.Options{})
+	g.MustStatus(g.Put(g.RootC, "/bkt", nil, nil), 200, "create bucket")
+	body := []byte("a\r\n0123456789\r\n0\r\nx-amz-checksum-crc32:poTHxg==\r\n\r\n")
+	send := func(c gwtest.Cred, key string) *gwtest.Resp {
+		return g.Do(gwtest.Req{Method: "PUT", Target: "/bkt/" + key, Cred: c, Body: body, Payload: "STREAMING-UNSIGNED-PAYLOAD-TRAILER",
+			Header: map[string]string{"Content-Encoding": "aws-chunked", "X-Amz-Trailer": "x-amz-checksum-crc32", "X-Amz-Decoded-Content-Length": "10"}})
+	}
+	if ok := send(g.RootC, "good"); ok.Status != 200 {
+		t.Fatalf("valid unsigned-trailer upload: %s", ok)
+	}
+	bad := gwtest.Cred{Access: g.RootC.Access, Secret: "not-the-secret"}
+	r := send(bad, "forged")
+	h := g.Get(g.RootC, "/bkt/forged", nil)
+	if r.Status/100 == 2 || h.Status == 200 {
+		t.Fatalf("unsigned-trailer upload signed with a wrong secret answered %d; GET now answers %d (%d bytes)", r.Status, h.Status, len(h.Body))
+	}
+}
